@@ -291,6 +291,35 @@ Section FiltAddr.
       rewrite flat_map_flat_map. apply flat_map_ext'. intros k. destruct (lookup m k) as [x|]; [|reflexivity].
       destruct (h x); [cbn [flat_map]; rewrite app_nil_r|]; reflexivity.
   Qed.
+  (* the same when the verdict for a member may depend on all the members offered together *)
+  Definition kids (v : value) : list value :=
+    match v with
+    | VArr xs => xs
+    | VObj m => flat_map (fun k => match lookup m k with Some x => [x] | None => [] end) (sorted_keys m)
+    | _ => []
+    end.
+  Lemma sp_kfilter_l q (H : list value -> value -> bool) b next root p v :
+    (forall vals, Forall small vals -> holds q root vals = map (H vals) vals) -> small v ->
+    sp (Node (KFilter q) b next) root (Some p, v) = flat_map (ChainAddr.fwd ffun afun regex_match b next root) (navp (H (kids v)) (p, v)).
+  Proof.
+    intros Hh Hsm. unfold navp. cbn [snd fst]. destruct v as [|bb|x|s x|s|xs|m|t i s]; try reflexivity.
+    - change (sp (Node (KFilter q) b next) root (Some p, VArr xs)) with
+        (flat_map (fun ib : (Z * value) * bool => if snd ib then ChainAddr.fwd ffun afun regex_match b next root (p ++ [PIdx (fst (fst ib))], snd (fst ib)) else [])
+                  (combine (index_list xs 0) (holds q root xs))).
+      rewrite (Hh xs (small_arr_all xs Hsm)), combine_index, flat_map_map', flat_map_flat_map. cbn [kids].
+      apply flat_map_ext'. intros [i x]. cbn [fst snd]. destruct (H xs x); [cbn [flat_map]; rewrite app_nil_r|]; reflexivity.
+    - change (sp (Node (KFilter q) b next) root (Some p, VObj m)) with
+        (flat_map (fun kb : string * bool => if snd kb then match lookup m (fst kb) with
+                                                             | Some x => ChainAddr.fwd ffun afun regex_match b next root (p ++ [PKey (fst kb)], x)
+                                                             | None => []
+                                                             end else [])
+                  (combine (sorted_keys m) (holds q root (flat_map (fun k => match lookup m k with Some v => [v] | None => [] end) (sorted_keys m))))).
+      rewrite (Hh _ (small_obj_vals m (sorted_keys m) Hsm)). cbn [kids].
+      rewrite (obj_combine m (H (flat_map (fun k => match lookup m k with Some v => [v] | None => [] end) (sorted_keys m))) (fun k => match lookup m k with Some x => ChainAddr.fwd ffun afun regex_match b next root (p ++ [PKey k], x) | None => [] end)
+                           (sorted_keys m) (sorted_key_present m)).
+      rewrite flat_map_flat_map. apply flat_map_ext'. intros k. destruct (lookup m k) as [x|]; [|reflexivity].
+      destruct (H _ x); [cbn [flat_map]; rewrite app_nil_r|]; reflexivity.
+  Qed.
   Lemma sp_neg isteps b next root p v : forallb rstep_ok isteps = true -> small v ->
     sp (Node (neg_kind cfg isteps) b next) root (Some p, v) =
     flat_map (ChainAddr.fwd ffun afun regex_match b next root) (navp (fun x => negb (reaches isteps x)) (p, v)).
